@@ -548,7 +548,9 @@ func (x *Exec) evalMath(name string, args []Value, st *State, e *ast.CallExpr) (
 		switch name {
 		case "Asin":
 			x.domainSafety(st, And(Ge(xs[0], Neg(one)), Le(xs[0], one)), e, "asin argument in [-1,1]")
-			x.mathAxiom("-pi/2 <= asin <= pi/2 (bounds -1.5708, 1.5708)", And(Ge(p, RealLitF(-1.5708)), Le(p, RealLitF(1.5708))))
+			// range of the float64 function: math.Asin(1) == float64(math.Pi)/2 < math.Pi/2 (the untyped constant)
+			halfPi := RealLit(new(big.Rat).Quo(piRat(), big.NewRat(2, 1)))
+			x.mathAxiom("-math.Pi/2 <= asin <= math.Pi/2 (range of the float64 function)", And(Ge(p, Neg(halfPi)), Le(p, halfPi)))
 		case "Acos":
 			x.domainSafety(st, And(Ge(xs[0], Neg(one)), Le(xs[0], one)), e, "acos argument in [-1,1]")
 			x.mathAxiom("0 <= acos <= pi (bound 3.1416)", And(Ge(p, zero), Le(p, RealLitF(3.1416))))
@@ -940,7 +942,7 @@ func (x *Exec) callWithContract(fu *FuncUnit, uc *UnitContract, recv *Value, arg
 			continue
 		}
 		if en.Assumed {
-			x.trustedUsed[fmt.Sprintf("%s/post:%s is assumed, not proved (bounded stand-in): %s", uc.ID(), en.Name, en.Text)] = true
+			x.trustedUsed[fmt.Sprintf("%s/post:%s is assumed, not proved: %s", uc.ID(), en.Name, en.Text)] = true
 		}
 		x.assume(st, x.specBool(en, st, sp), "ensures:"+fu.Name+"."+en.Name)
 	}
@@ -1023,4 +1025,10 @@ func (x *Exec) fieldFuncAlias(field string) *aliasTarget {
 		}
 	}
 	return nil
+}
+
+// piRat: the value of the untyped constant math.Pi as go/constant gives it (exact rational of its decimal expansion).
+func piRat() *big.Rat {
+	r, _ := new(big.Rat).SetString("3.14159265358979323846264338327950288419716939937510582097494459")
+	return r
 }
